@@ -43,7 +43,17 @@
 //! per-datagram `local_address`; inbound broadcast / multicast destinations; datagrams that
 //! can only match an endpoint-less socket (udp port 0, icmp error).
 //!
-//! Besides the BFS runs there is one scripted family, "largest datagram" (`largest_run`): device
+//! IPv4 fragment trains (tight links) are REASSEMBLED by the oracle (`Train`): a datagram that
+//! exceeds the IP MTU is matched against the model by its first fragment and rebuilt from the
+//! (offset field x 8, length) of the fragments actually on the wire; overlap, gap, unaligned
+//! middle fragment, wrong octets, a short tail, an abandoned or (at quiescence) incomplete
+//! train mean "not transmitted unmodified".
+//!
+//! Two scripted families complement the BFS runs.  "two sockets" (`pair_run`): {udp, icmp,
+//! raw} + udp on one IPv4 interface (IP MTU 36, Ethernet / Medium::Ip), each queues one
+//! datagram of size {fills the MTU, 2 fragments, 3 fragments} before the same poll, device
+//! unlimited / one frame per poll: every dequeued datagram is on the wire exactly once, whole,
+//! in any order (C09/<k1>+udp/tx-pair/<cause>).  "largest datagram" (`largest_run`): device
 //! MTU 70000, the largest datagram the IP length fields can express and one octet more, each
 //! with a normal datagram queued behind it; poll must not panic (C09/<kind>/tx-largest/panic/
 //! <site>), the largest one is transmitted once, unmodified, with consistent length fields,
@@ -506,7 +516,8 @@ outcomes! {
     TxMatched => "frame:socket-datagram==head-of-model-queue",
     TxMatchedSkipping => "frame:socket-datagram matched after skipping never-deliverable entries",
     TxFragFirst => "frame:first IPv4 fragment of a datagram that exceeds the link MTU",
-    TxFragRest => "frame:later IPv4 fragment (not judged here, C12)",
+    TxFragRest => "frame:later IPv4 fragment (placed into the reassembly of its datagram)",
+    TxTrainComplete => "frame:last fragment, datagram reassembled completely and identical",
     TxArpReq => "frame:ARP request",
     TxNs => "frame:neighbor solicitation",
     TxOther => "frame:other (ICMP error, MLD, ARP reply, NA)",
@@ -581,6 +592,98 @@ fn hx(b: &[u8]) -> String {
     }
 }
 
+/// Reassembly of one IPv4 fragment train as a receiver would do it, against the IP payload the
+/// datagram must produce.  Fragments are placed by their OFFSET FIELD (x8) and length; smoltcp
+/// emits a train in order, so every fragment must start exactly where the previous one ended.
+#[derive(Clone, Debug)]
+struct Train {
+    ident: u16,
+    label: u8,
+    /// IP payload of the whole datagram
+    expected: Vec<u8>,
+    /// octets of `expected` that are not compared (a checksum the harness cannot predict)
+    mask: Option<(usize, usize)>,
+    /// next octet expected
+    next: usize,
+}
+impl Train {
+    /// Ok(true): train complete. Err((cause, detail)): not "transmitted unmodified".
+    fn feed(&mut self, info: &wc::IpInfo, payload: &[u8]) -> Result<bool, (&'static str, String)> {
+        let (off, len) = (info.frag_offset, payload.len());
+        let ctx = format!(
+            "fragment ident {:#06x} offset {} length {} MF={} of datagram #{} (IP payload {} octets, {} octets reassembled so far)",
+            info.ident,
+            off,
+            len,
+            info.more_frags as u8,
+            self.label,
+            self.expected.len(),
+            self.next
+        );
+        if info.ident != self.ident {
+            return Err(("stray-fragment", format!("{}: the train in flight has ident {:#06x}", ctx, self.ident)));
+        }
+        if off < self.next {
+            return Err(("fragment-overlap", format!("{}: overlaps what was already sent", ctx)));
+        }
+        if off > self.next {
+            return Err(("fragment-gap", format!("{}: leaves a gap of {} octets", ctx, off - self.next)));
+        }
+        if off + len > self.expected.len() {
+            return Err(("fragment-beyond-datagram", format!("{}: reaches beyond the datagram", ctx)));
+        }
+        for i in 0..len {
+            let masked = self.mask.map_or(false, |(a, b)| off + i >= a && off + i < b);
+            if !masked && payload[i] != self.expected[off + i] {
+                return Err(("fragment-payload-bytes", format!("{}: octet {} is {:#04x}, the datagram has {:#04x}", ctx, off + i, payload[i], self.expected[off + i])));
+            }
+        }
+        if info.more_frags && len % 8 != 0 {
+            return Err(("fragment-unaligned", format!("{}: a fragment that is not the last one must carry a multiple of 8 octets (the next offset is not expressible)", ctx)));
+        }
+        self.next = off + len;
+        if !info.more_frags {
+            if self.next != self.expected.len() {
+                return Err(("fragment-train-ends-short", format!("{}: last fragment ends at {} of {}", ctx, self.next, self.expected.len())));
+            }
+            return Ok(true);
+        }
+        Ok(false)
+    }
+}
+
+/// IP payload a datagram of `kind` with application bytes `bytes` must produce, and the octets
+/// the harness cannot predict (udp checksum; ICMP checksum when the device computes it)
+fn expected_ip_payload(cfg: &Cfg, bytes: &[u8], sport: u16, dport: u16) -> (Vec<u8>, Option<(usize, usize)>) {
+    match cfg.kind {
+        Kind::Udp => {
+            let mut p = vec![];
+            p.extend_from_slice(&sport.to_be_bytes());
+            p.extend_from_slice(&dport.to_be_bytes());
+            p.extend_from_slice(&((8 + bytes.len()) as u16).to_be_bytes());
+            p.extend_from_slice(&[0, 0]);
+            p.extend_from_slice(bytes);
+            (p, Some((6, 8)))
+        }
+        Kind::Icmp => {
+            let caps = cfg.ck.caps();
+            let stack = stack_computes(if cfg.v6 { caps.icmpv6 } else { caps.icmpv4 });
+            (bytes.to_vec(), if stack { None } else { Some((2, 4)) })
+        }
+        Kind::Raw => (bytes[cfg.hdr()..].to_vec(), None),
+    }
+}
+
+/// bytes the application hands to send* for a datagram of `size` octets from `us` to `dst`
+fn app_bytes(cfg: &Cfg, us: &Addr, dst: &Addr, size: usize, label: u8) -> Vec<u8> {
+    let free = data(size - cfg.hdr(), label);
+    match cfg.kind {
+        Kind::Udp => free,
+        Kind::Icmp => fr::icmp_echo(us, dst, false, ICMP_IDENT, label as u16, &free),
+        Kind::Raw => fr::ip(us, dst, RAW_PROTO, 60 + label, &free),
+    }
+}
+
 fn oa(a: &Option<Addr>) -> String {
     a.as_ref().map_or("-".to_string(), |a| a.to_string())
 }
@@ -644,8 +747,8 @@ pub struct DgH {
     /// a neighbor request for B was seen on the wire and not answered yet
     pending_b: bool,
     b_resolved: bool,
-    /// a datagram too big for the link has started to leave as IPv4 fragments
-    frag_started: bool,
+    /// the fragment train of a datagram too big for the link that is leaving right now
+    train: Option<Train>,
     /// the model lost track after a violation: no further events
     tainted: bool,
     last_sent: Option<Vec<u8>>,
@@ -868,12 +971,7 @@ impl DgH {
                 _ => vec![if v6 { 128 } else { 8 }, 0, 0],
             };
         }
-        let free = data(size - self.cfg.hdr(), label);
-        match self.cfg.kind {
-            Kind::Udp => free,
-            Kind::Icmp => fr::icmp_echo(&self.us(), &self.a(dst), false, ICMP_IDENT, label as u16, &free),
-            Kind::Raw => fr::ip(&self.us(), &self.a(dst), RAW_PROTO, 60 + label, &free),
-        }
+        app_bytes(&self.cfg, &self.us(), &self.a(dst), size, label)
     }
 
     /// (frame for the device, bytes recv must return) of an inbound datagram
@@ -1166,24 +1264,33 @@ impl DgH {
             }
             return;
         }
+        if info.version == 4 && info.frag_offset != 0 && info.proto == own_proto {
+            // a later fragment (its payload has no transport header to classify it by)
+            stat(O::TxFragRest);
+            let Some(mut t) = self.train.take() else {
+                let d = format!("IPv4 fragment at offset {} ({} -> {}) although no fragment train is in flight", info.frag_offset, info.src, info.dst);
+                self.viol(out, "tx-unmodified", "stray-fragment", d, true);
+                return;
+            };
+            match t.feed(&info, payload) {
+                Ok(true) => stat(O::TxTrainComplete),
+                Ok(false) => self.train = Some(t),
+                Err((cause, d)) => self.viol(out, "tx-unmodified", cause, d, true),
+            }
+            return;
+        }
         if !self.is_socket_datagram(&info, payload) {
             stat(O::TxOther);
             return;
         }
         // --- a datagram of the socket under test is on the wire ---
         // IPv4 fragments: a datagram that FITS the link must leave as one unfragmented packet
-        // (MF = 0, offset 0).  For a datagram that exceeds the IP MTU the oracle is lenient
-        // (fragmentation itself is C12's subject): its FIRST fragment stands for the datagram
-        // (order, at-most-once, addressing, content prefix), later fragments are only counted.
+        // (MF = 0, offset 0).  A datagram that exceeds the IP MTU is matched against the model
+        // by its FIRST fragment (order, at-most-once, addressing) and then REASSEMBLED from
+        // the (offset field x 8, length) of the fragments actually on the wire (`Train`):
+        // overlap, gap, unaligned middle fragment, wrong bytes or a short tail mean that the
+        // datagram was not transmitted unmodified.
         let frag_first = info.version == 4 && info.more_frags && info.frag_offset == 0;
-        if info.version == 4 && info.frag_offset != 0 {
-            stat(O::TxFragRest);
-            if !self.frag_started {
-                let d = format!("IPv4 fragment at offset {} ({} -> {}) although no datagram exceeding the MTU has started to leave", info.frag_offset, info.src, info.dst);
-                self.viol(out, "tx-unmodified", "stray-fragment", d, true);
-            }
-            return;
-        }
         let differs = |h: &DgH, e: &TxEntry| if frag_first { h.tx_prefix_diff(e, &info, payload) } else { h.tx_diff(e, &info, payload) };
         let pos = (0..self.tx_model.len()).find(|&i| differs(self, &self.tx_model[i]).is_none());
         let Some(pos) = pos else {
@@ -1248,7 +1355,20 @@ impl DgH {
                 return;
             }
             stat(O::TxFragFirst);
-            self.frag_started = true;
+            if let Some(t) = &self.train {
+                let d = format!("datagram #{} starts to leave as fragments while the train of datagram #{} is incomplete ({} of {} octets)", e.label, t.label, t.next, t.expected.len());
+                self.viol(out, "tx-unmodified", "fragment-train-abandoned", d, true);
+                return;
+            }
+            let (expected, mask) = expected_ip_payload(&self.cfg, &e.bytes, LOCAL_PORT, REMOTE_PORT);
+            let mut t = Train { ident: info.ident, label: e.label, expected, mask, next: 0 };
+            match t.feed(&info, payload) {
+                Ok(_) => self.train = Some(t),
+                Err((cause, d)) => {
+                    self.viol(out, "tx-unmodified", cause, d, true);
+                    return;
+                }
+            }
         } else {
             stat(if pos == 0 { O::TxMatched } else { O::TxMatchedSkipping });
         }
@@ -1801,6 +1921,16 @@ impl DgH {
             return;
         };
         stat(v);
+        if let Some(t) = &self.train {
+            let d = format!(
+                "the fragment train of datagram #{} stopped at {} of {} octets although back-pressure is lifted and nothing more happens (poll_at {:?})",
+                t.label,
+                t.next,
+                t.expected.len(),
+                self.iface.poll_at(self.ts(), &self.sockets)
+            );
+            self.viol(out, "tx-liveness", "fragment-train-incomplete", d, false);
+        }
         // a deliverable datagram that is neither on the wire nor in the queue any more was lost,
         // not blocked: report that (check_accessors) rather than a liveness verdict
         let need: usize = self.tx_model.iter().filter(|e| self.deliverable(e)).map(|e| e.bytes.len()).sum();
@@ -2114,7 +2244,7 @@ impl Harness for DgH {
             rx_label: 0,
             pending_b: false,
             b_resolved: false,
-            frag_started: false,
+            train: None,
             tainted: false,
             last_sent: None,
             last_recv: None,
@@ -2209,7 +2339,7 @@ impl Harness for DgH {
         }
         let tx: Vec<(usize, Who, bool, Option<Who>, bool)> = self.tx_model.iter().map(|e| (e.bytes.len(), e.dst, e.malformed, e.local, e.bound_addr)).collect();
         let rx: Vec<(usize, Who, To)> = self.rx_model.iter().map(|e| (e.bytes.len(), e.from, e.to)).collect();
-        fp128(&(img, tx, rx, self.dev.refuse_next, self.dev.inner.rx.len(), self.pending_b, self.b_resolved, self.tainted, self.frag_started))
+        fp128(&(img, tx, rx, self.dev.refuse_next, self.dev.inner.rx.len(), self.pending_b, self.b_resolved, self.tainted, self.train.as_ref().map(|t| (t.next, t.expected.len()))))
     }
 
     fn outcome(&self) -> String {
@@ -2471,6 +2601,229 @@ fn largest_run(cfg: &Cfg, above: bool) -> (Vec<Viol>, serde_json::Value) {
     (viols, serde_json::Value::Object(m))
 }
 
+// ---------------------------------------------------------------------------------------
+// two-socket family (scripted single runs): one egress fragmentation buffer, two sockets
+// ---------------------------------------------------------------------------------------
+
+/// (kind of the first socket, Ethernet?, size class of its datagram, size class of the udp
+/// socket's datagram, device hands out one frame per poll?)  Size classes on the IP MTU 36
+/// link: 0 = exactly fills the MTU, 1 = two fragments, 2 = three fragments.
+fn pair_scenarios() -> Vec<(Kind, bool, usize, usize, bool)> {
+    let mut v = vec![];
+    for k1 in [Kind::Udp, Kind::Icmp, Kind::Raw] {
+        for eth in [true, false] {
+            for c1 in 0..3 {
+                for c2 in 0..3 {
+                    for one in [false, true] {
+                        v.push((k1, eth, c1, c2, one));
+                    }
+                }
+            }
+        }
+    }
+    v
+}
+
+fn eq_masked(a: &[u8], b: &[u8], mask: Option<(usize, usize)>) -> bool {
+    a.len() == b.len() && (0..a.len()).all(|i| a[i] == b[i] || mask.map_or(false, |(x, y)| i >= x && i < y))
+}
+
+/// Two sockets (`k1` + udp) on one IPv4 interface, IP MTU 36, both queue one datagram before the
+/// same poll (destination: the resolved neighbor A).  Every datagram a socket has dequeued must
+/// be on the wire exactly once, whole (reassembled from the fragments actually emitted), in
+/// any order between the two sockets.
+fn pair_run(k1: Kind, eth: bool, c1: usize, c2: usize, one_per_poll: bool) -> (Vec<Viol>, serde_json::Value) {
+    use std::cell::RefCell;
+    use std::collections::BTreeMap;
+    use std::panic::{catch_unwind, AssertUnwindSafe};
+    let ip_mtu = 36usize;
+    let name = format!("{}+udp", k1.name());
+    let desc = format!(
+        "kinds={} medium={} ip=v4 ip_mtu={} datagrams=({},{}) device={}",
+        name,
+        if eth { "eth" } else { "ip" },
+        ip_mtu,
+        ["fits", "2-fragments", "3-fragments"][c1],
+        ["fits", "2-fragments", "3-fragments"][c2],
+        if one_per_poll { "one-frame-per-poll" } else { "unlimited" }
+    );
+    let viols: RefCell<Vec<Viol>> = RefCell::new(vec![]);
+    let v = |cause: &str, d: String| {
+        vlog!("      !! C09/{}/tx-pair/{} :: {}", name, cause, d);
+        viols.borrow_mut().push(Viol::new(format!("C09/{}/tx-pair/{}", name, cause), format!("[{}] {}", desc, d)));
+    };
+    let counts = RefCell::new([0usize; 2]);
+    let frames_seen = RefCell::new(0usize);
+    let r = catch_unwind(AssertUnwindSafe(|| {
+        let cfgs = [
+            Cfg { phase: Phase::Tx, kind: k1, eth, v6: false, slots: 4, k: 200, via_b: false, ip_mtu, ck: Ck::Default },
+            Cfg { phase: Phase::Tx, kind: Kind::Udp, eth, v6: false, slots: 4, k: 200, via_b: false, ip_mtu, ck: Ck::Default },
+        ];
+        let medium = if eth { Medium::Ethernet } else { Medium::Ip };
+        let mut dev = BpDev { inner: SimDevice::new(medium, ip_mtu + if eth { 14 } else { 0 }), refuse_next: 0 };
+        let hw = if eth { HardwareAddress::Ethernet(EthernetAddress(MAC_US)) } else { HardwareAddress::Ip };
+        let mut c = Config::new(hw);
+        c.random_seed = 1;
+        let mut iface = Interface::new(c, &mut dev, Instant::from_micros(0));
+        let (us, a) = (addr(false, Who::Us), addr(false, Who::A));
+        iface.update_ip_addrs(|x| x.push(IpCidr::new(to_ip(&us), 24)).unwrap());
+        let mut sockets = SocketSet::new(vec![]);
+        let cap = cfgs[0].cap();
+        let h1 = match k1 {
+            Kind::Udp => {
+                let mut s = udp::Socket::new(mk_buf(udp::PacketMetadata::EMPTY, 4, cap), mk_buf(udp::PacketMetadata::EMPTY, 4, cap));
+                s.bind(LOCAL_PORT).unwrap();
+                sockets.add(s)
+            }
+            Kind::Icmp => {
+                let mut s = icmp::Socket::new(mk_buf(icmp::PacketMetadata::EMPTY, 4, cap), mk_buf(icmp::PacketMetadata::EMPTY, 4, cap));
+                s.bind(icmp::Endpoint::Ident(ICMP_IDENT)).unwrap();
+                sockets.add(s)
+            }
+            Kind::Raw => sockets.add(raw::Socket::new(
+                Some(IpVersion::Ipv4),
+                Some(IpProtocol::Unknown(RAW_PROTO)),
+                mk_buf(raw::PacketMetadata::EMPTY, 4, cap),
+                mk_buf(raw::PacketMetadata::EMPTY, 4, cap),
+            )),
+        };
+        let h2 = {
+            let mut s = udp::Socket::new(mk_buf(udp::PacketMetadata::EMPTY, 4, 200), mk_buf(udp::PacketMetadata::EMPTY, 4, 200));
+            s.bind(LOCAL_PORT + 1).unwrap();
+            sockets.add(s)
+        };
+        if eth {
+            let (Addr::V4(spa), Addr::V4(tpa)) = (a.clone(), us.clone()) else { unreachable!() };
+            dev.inner.rx.push_back(fr::eth(&MAC_US, &MAC_A, fr::ETH_ARP, &fr::arp(2, &MAC_A, &spa, &MAC_US, &tpa)));
+        }
+        for _ in 0..3 {
+            iface.poll(Instant::from_micros(0), &mut dev, &mut sockets);
+        }
+        dev.inner.take_tx();
+        // one datagram per socket, queued before the same poll
+        let sizes = [[0usize, 1, 17][c1] + cfgs[0].fills_mtu(), [0usize, 1, 17][c2] + cfgs[1].fills_mtu()];
+        let bytes = [app_bytes(&cfgs[0], &us, &a, sizes[0], 1), app_bytes(&cfgs[1], &us, &a, sizes[1], 2)];
+        let ok1 = match k1 {
+            Kind::Udp => sockets.get_mut::<udp::Socket>(h1).send_slice(&bytes[0], IpEndpoint::new(to_ip(&a), REMOTE_PORT)).is_ok(),
+            Kind::Icmp => sockets.get_mut::<icmp::Socket>(h1).send_slice(&bytes[0], to_ip(&a)).is_ok(),
+            Kind::Raw => sockets.get_mut::<raw::Socket>(h1).send_slice(&bytes[0]).is_ok(),
+        };
+        let ok2 = sockets.get_mut::<udp::Socket>(h2).send_slice(&bytes[1], IpEndpoint::new(to_ip(&a), REMOTE_PORT + 1)).is_ok();
+        vlog!("  send on socket 1 ({} octets) -> {}, on socket 2 ({} octets) -> {}", sizes[0], ok1, sizes[1], ok2);
+        if !ok1 || !ok2 {
+            v("send-refused", format!("send refused a datagram into an empty buffer ({} / {})", ok1, ok2));
+            return;
+        }
+        let expected = [
+            expected_ip_payload(&cfgs[0], &bytes[0], LOCAL_PORT, REMOTE_PORT),
+            expected_ip_payload(&cfgs[1], &bytes[1], LOCAL_PORT + 1, REMOTE_PORT + 1),
+        ];
+        let protos = [[fr::PROTO_UDP, fr::PROTO_ICMP, RAW_PROTO][k1 as usize], fr::PROTO_UDP];
+        let mut trains: BTreeMap<u16, (usize, Train)> = BTreeMap::new();
+        let queue = |sockets: &SocketSet<'static>, i: usize| -> usize {
+            if i == 1 {
+                return sockets.get::<udp::Socket>(h2).send_queue();
+            }
+            match k1 {
+                Kind::Udp => sockets.get::<udp::Socket>(h1).send_queue(),
+                Kind::Icmp => sockets.get::<icmp::Socket>(h1).send_queue(),
+                Kind::Raw => sockets.get::<raw::Socket>(h1).send_queue(),
+            }
+        };
+        for round in 0..40 {
+            if one_per_poll {
+                dev.inner.tx_budget = Some(1);
+            }
+            iface.poll(Instant::from_micros(0), &mut dev, &mut sockets);
+            let frames = dev.inner.take_tx();
+            vlog!("  poll #{}: {} frame(s)", round + 1, frames.len());
+            for (_, f) in frames {
+                let p = fr::parse_frame(eth, &f);
+                let (info, packet) = match &p.l3 {
+                    fr::L3::Arp { .. } => continue,
+                    fr::L3::Bad(e) => {
+                        v("unparsable-frame", format!("frame {} cannot be parsed: {}", hx(&f), e));
+                        continue;
+                    }
+                    fr::L3::Ip { info, packet } => (info.clone(), packet.clone()),
+                };
+                if info.version != 4 || !protos.contains(&info.proto) {
+                    continue;
+                }
+                *frames_seen.borrow_mut() += 1;
+                let payload = &packet[info.payload_off..];
+                vlog!("      tx: proto {} ident {:#06x} offset {} MF={} len {} {}", info.proto, info.ident, info.frag_offset, info.more_frags as u8, payload.len(), hx(payload));
+                if !info.header_checksum_ok {
+                    v("ipv4-header-checksum", format!("packet ident {:#06x} offset {} left with a wrong IPv4 header checksum", info.ident, info.frag_offset));
+                    continue;
+                }
+                if !info.more_frags && info.frag_offset == 0 {
+                    match (0..2).find(|&i| protos[i] == info.proto && eq_masked(payload, &expected[i].0, expected[i].1)) {
+                        Some(i) => counts.borrow_mut()[i] += 1,
+                        None => v("unexpected-datagram", format!("whole datagram {} on the wire is neither of the two datagrams sent", hx(payload))),
+                    }
+                    continue;
+                }
+                if info.frag_offset == 0 {
+                    // first fragment: whose datagram is it?
+                    let who = (0..2).find(|&i| {
+                        protos[i] == info.proto
+                            && payload.len() <= expected[i].0.len()
+                            && eq_masked(payload, &expected[i].0[..payload.len()], expected[i].1)
+                            && !trains.values().any(|(j, _)| *j == i)
+                            && counts.borrow()[i] == 0
+                    });
+                    match who {
+                        None => v("unexpected-datagram", format!("first fragment {} belongs to neither datagram (or to one already transmitted)", hx(payload))),
+                        Some(i) => {
+                            let mut t = Train { ident: info.ident, label: i as u8 + 1, expected: expected[i].0.clone(), mask: expected[i].1, next: 0 };
+                            match t.feed(&info, payload) {
+                                Ok(_) => {
+                                    trains.insert(info.ident, (i, t));
+                                }
+                                Err((cause, d)) => v(cause, d),
+                            }
+                        }
+                    }
+                    continue;
+                }
+                match trains.remove(&info.ident) {
+                    None => v("stray-fragment", format!("fragment ident {:#06x} offset {} belongs to no train in flight", info.ident, info.frag_offset)),
+                    Some((i, mut t)) => match t.feed(&info, payload) {
+                        Ok(true) => counts.borrow_mut()[i] += 1,
+                        Ok(false) => {
+                            trains.insert(info.ident, (i, t));
+                        }
+                        Err((cause, d)) => v(cause, d),
+                    },
+                }
+            }
+            if (0..2).all(|i| queue(&sockets, i) == 0) && trains.is_empty() && iface.poll_at(Instant::from_micros(0), &sockets).is_none() {
+                break;
+            }
+        }
+        for i in 0..2 {
+            let n = counts.borrow()[i];
+            let what = format!("datagram of socket {} ({} octets, {})", i + 1, sizes[i], ["fits", "2 fragments", "3 fragments"][[c1, c2][i]]);
+            if queue(&sockets, i) != 0 {
+                v("never-dequeued", format!("{} is still queued after 40 polls", what));
+            } else if n == 0 {
+                let d = format!("{} was dequeued by its socket but never appeared on the wire completely", what);
+                v(if trains.values().any(|(j, _)| *j == i) { "fragment-train-incomplete" } else { "dequeued-datagram-never-transmitted" }, d);
+            } else if n > 1 {
+                v("duplicate-transmission", format!("{} appeared {} times", what, n));
+            }
+        }
+    }));
+    if let Err(e) = r {
+        let d = format!("panic: {} at {}", panic_msg(e), last_panic_loc());
+        viols.borrow_mut().push(Viol::new(format!("C09/{}/tx-pair/panic/{}", name, panic_site()), format!("[{}] {}", desc, d)));
+    }
+    let viols = viols.into_inner();
+    let summary = json!({"scenario": desc, "frames_of_the_sockets": *frames_seen.borrow(), "complete_datagrams_seen": *counts.borrow(), "violations": viols.iter().map(|x| x.sig.clone()).collect::<Vec<_>>()});
+    (viols, summary)
+}
+
 pub fn run(tier: Tier) -> i32 {
     let mut rep = Report::new("C09", tier);
     rep.assumptions.push("reference model = two FIFO queues of (metadata, bytes); trusted".into());
@@ -2480,7 +2833,7 @@ pub fn run(tier: Tier) -> i32 {
     rep.assumptions.push("the IPv4 header checksum of every emitted packet of the socket's protocol (all fragments included) is verified with wirecheck (RFC 1071) where DeviceCapabilities::checksum.ipv4 is Both or Tx".into());
     rep.assumptions.push("model bookkeeping uses public api only: send*/recv*/peek* results, send_queue()/recv_queue()/can_recv(), packet capacities; the single exception is whether a ZERO-length udp datagram was queued (recv_queue() cannot tell), which is read from the socket's public Debug image".into());
     rep.assumptions.push("lenient readings: icmp sockets: checksum field of sent/received ICMP messages masked (the socket re-serialises the message); raw sockets: IP header compared by version/src/dst/protocol/hop limit, payload byte-exact (header documented as re-serialised); 3-byte garbage handed to an icmp/raw socket and datagrams to a destination without route may be dropped or stay queued, but must never appear on the wire differently; a zero-length udp datagram carries no label (order among identical zero-length datagrams is not observable)".into());
-    rep.assumptions.push("close() discards queued datagrams (documented); on the ordinary links datagram sizes stay far below the MTU; on the tight IPv4 links a datagram that fits the IP MTU must leave as ONE unfragmented packet, for a datagram one byte over the MTU only the first fragment is judged (order, at most once, addressing, content prefix) - fragmentation itself is C12's subject; fingerprint: ident and buffered bytes of the egress fragmenter stripped (only copied into later fragments), an empty fragmenter is one state".into());
+    rep.assumptions.push("close() discards queued datagrams (documented); on the ordinary links datagram sizes stay far below the MTU; on the tight IPv4 links a datagram that fits the IP MTU must leave as ONE unfragmented packet; a datagram over the MTU is matched by its first fragment (order, at most once, addressing) and reassembled by the oracle from (offset field x 8, length) of the emitted fragments, in emission order (smoltcp emits a train in order): overlap / gap / unaligned middle fragment / wrong octets / short tail / abandoned or incomplete train are violations; the udp checksum inside the reassembled payload is not compared; fingerprint: ident and buffered bytes of the egress fragmenter stripped (only copied into later fragments), an empty fragmenter is one state, progress of the reassembly included".into());
     let lim = Limits { max_states: std::env::var("DGRAM_MAXSTATES").ok().and_then(|x| x.parse().ok()).unwrap_or(50_000_000), max_wall_s: 36000.0 };
     let mut cfgs = configs(tier);
     if let Ok(f) = std::env::var("DGRAM_ONLY") {
@@ -2548,6 +2901,24 @@ pub fn run(tier: Tier) -> i32 {
         largest.push(summary);
     }
     rep.cov("largest_datagram_family", json!(largest));
+    // two-socket family
+    let mut pairs = vec![];
+    let (mut pair_frames, mut pair_datagrams) = (0u64, 0u64);
+    for (k1, eth, c1, c2, one) in pair_scenarios() {
+        let (viols, summary) = pair_run(k1, eth, c1, c2, one);
+        rep.add_count("evaluations", 1);
+        pair_frames += summary["frames_of_the_sockets"].as_u64().unwrap_or(0);
+        pair_datagrams += summary["complete_datagrams_seen"].as_array().map_or(0, |a| a.iter().map(|x| x.as_u64().unwrap_or(0)).sum());
+        for v in viols {
+            if !rep.found.iter().any(|g| g.viol.sig == v.sig) {
+                rep.found.push(Found { viol: v, replay: json!({"harness": "dgram-pair", "kind": k1.name(), "eth": eth, "c1": c1, "c2": c2, "one_per_poll": one}) });
+            }
+        }
+        if pairs.len() < 6 || !summary["violations"].as_array().map_or(true, |a| a.is_empty()) {
+            pairs.push(summary);
+        }
+    }
+    rep.cov("two_socket_family", json!({"runs": pair_scenarios().len(), "frames_judged": pair_frames, "datagrams_reassembled": pair_datagrams, "first_runs_and_failing_runs": pairs}));
     // MACHINERY pseudo-violations are machinery errors, not findings
     let (mach, real): (Vec<Found>, Vec<Found>) = std::mem::take(&mut rep.found).into_iter().partition(|f| f.viol.sig.starts_with("MACHINERY/"));
     rep.found = real;
@@ -2577,8 +2948,9 @@ pub fn run(tier: Tier) -> i32 {
         "alphabet",
         json!({
             "largest_datagram": "scripted runs (not BFS): device MTU 70000, all three kinds, IPv4/IPv6, Medium::Ip and Ethernet: the largest datagram the IP length fields can express (IPv4 total length 65535, IPv6 payload length 65535) and one octet more, each with a normal datagram queued behind it; poll x3 + drain under catch_unwind",
+            "two_sockets": "scripted runs (not BFS): two sockets {udp, icmp, raw} + udp on one IPv4 interface (IP MTU 36, Ethernet and Medium::Ip), each queues one datagram of size {fills the MTU, 2 fragments, 3 fragments} before the same poll; device unlimited / one frame per poll; every dequeued datagram must be on the wire exactly once, whole (reassembled from the emitted fragments), in any order",
             "small_rings": "4 metadata slots, payload ring 16 / 24 (+2*hdr) octets, sizes {2,6,8}+hdr and capacity: rx and tx alphabets (wrap-around with exact fit, one short, one over)",
-            "tight_links": "IPv4, tx alphabet, IP MTU 36 (= 4 mod 8) and 34: send sizes {M-1, M, M+1, M+17 (3 resp. 4 fragments)} with M = the datagram whose IP packet is exactly the IP MTU; a datagram that fits must leave unfragmented (MF=0, offset 0); for M+1 the first fragment stands for the datagram, later fragments are only counted (C12)",
+            "tight_links": "IPv4, tx alphabet, IP MTU 36 ((mtu-20) % 8 == 0) and 34 ((mtu-20) % 8 == 6): send sizes {M-1, M, M+1 (2 fragments), M+17 (3 resp. 4 fragments)} with M = the datagram whose IP packet is exactly the IP MTU; a datagram that fits must leave unfragmented (MF=0, offset 0); fragment trains are reassembled by the oracle and compared with the datagram sent",
             "send_local_address": "udp: the interface owns two addresses per family; extra sends with UdpMetadata::local_address = Some(first own address) / Some(second own address) (to A, and to the unresolved B on Ethernet), offered while bound by port and while bound by (first address, port); expected IP source = local_address if set, else the bound address, else any own address",
             "checksum_capabilities": "extra tx-alphabet configurations with DeviceCapabilities::checksum = {ipv4 Rx, ipv4 None (IPv4), all five Rx (IPv4 and IPv6)} on Ethernet and Medium::Ip for all three socket kinds; a checksum field is only compared where the stack computes it (explicit match Both | Tx): the ICMP checksum of icmp-socket messages; IP/UDP checksums are never part of the comparison",
             "send": "size in {hdr, hdr+1, hdr+3, capacity} x destination in {A resolved, B unresolved on-link, C off-link (default route via B | no route)}; api rotates over send_slice / send / send_with(max=size+2); plus 3 malformed bytes (icmp, raw)",
@@ -2594,6 +2966,25 @@ pub fn run(tier: Tier) -> i32 {
 }
 
 pub fn replay(art: &serde_json::Value) -> i32 {
+    if art["replay"]["harness"].as_str() == Some("dgram-pair") {
+        let r = &art["replay"];
+        let k1 = match r["kind"].as_str() {
+            Some("icmp") => Kind::Icmp,
+            Some("raw") => Kind::Raw,
+            _ => Kind::Udp,
+        };
+        VERBOSE.store(true, Ordering::Relaxed);
+        let (viols, summary) = pair_run(k1, r["eth"].as_bool().unwrap_or(true), r["c1"].as_u64().unwrap_or(0) as usize, r["c2"].as_u64().unwrap_or(0) as usize, r["one_per_poll"].as_bool().unwrap_or(false));
+        VERBOSE.store(false, Ordering::Relaxed);
+        println!("summary: {}", summary);
+        for v in &viols {
+            println!("violation: {} :: {}", v.sig, v.detail);
+        }
+        if viols.is_empty() {
+            println!("no violation on replay");
+        }
+        return if viols.is_empty() { 0 } else { 1 };
+    }
     let cfgs = art["replay"]["config"].as_str().unwrap_or("");
     let Some(cfg) = Cfg::parse(cfgs) else {
         eprintln!("MACHINERY ERROR: cannot parse configuration {:?}", cfgs);
